@@ -14,7 +14,7 @@ func MoveDecls(p *Prog, r *base.Rand) {
 	for _, pk := range p.Pkgs {
 		var pool []*File
 		for _, f := range pk.Files {
-			if f.IsTest() || isPoolFile(f.Name) {
+			if f.IsTest() || isPoolFile(f.Name) || f.Name == "noimp.go" {
 				continue
 			}
 			pool = append(pool, f)
@@ -33,8 +33,15 @@ func MoveDecls(p *Prog, r *base.Rand) {
 		}
 		var all []*Node
 		for _, f := range pool {
-			all = append(all, f.Decls...)
-			f.Decls = nil
+			var stay []*Node
+			for _, d := range f.Decls {
+				if d.Pin != "" {
+					stay = append(stay, d)
+				} else {
+					all = append(all, d)
+				}
+			}
+			f.Decls = stay
 		}
 		for _, d := range all {
 			f := pool[r.Intn(len(pool))]
@@ -268,7 +275,7 @@ func Respell(bt *Built, how string, r *base.Rand) (RenderOpts, int) {
 			}
 			return "(" + TypeText(u.T) + ")"
 		}}, countMentions(bt, okSub)
-	case "alias-local", "alias-third-package":
+	case "alias-local", "alias-third-package", "alias-chain":
 		b := &B{P: p, R: r}
 		names := map[*Type]string{}
 		name := func(t *Type) string {
@@ -279,7 +286,7 @@ func Respell(bt *Built, how string, r *base.Rand) (RenderOpts, int) {
 		}
 		var al *Pkg
 		var alf *File
-		if how == "alias-third-package" {
+		if how == "alias-third-package" || how == "alias-chain" {
 			al = b.NewPkg("m/al", "al", "al")
 			alf = b.NewFile(al, "al.go")
 			for _, t := range bt.Types {
@@ -287,6 +294,7 @@ func Respell(bt *Built, how string, r *base.Rand) (RenderOpts, int) {
 			}
 		}
 		spelled := map[*Line]bool{}
+		chained := map[*Line]bool{}
 		for _, u := range bt.UPkgs {
 			used := map[*Type]bool{}
 			for _, f := range u.Files {
@@ -301,17 +309,25 @@ func Respell(bt *Built, how string, r *base.Rand) (RenderOpts, int) {
 						l.Feature = "alias-spelling"
 					}
 				})
-				if how == "alias-third-package" {
+				if how == "alias-third-package" || how == "alias-chain" {
 					for _, d := range bt.DPkgs {
 						f.BlankImp = append(f.BlankImp, d.Path)
 					}
 				}
 			}
-			if how == "alias-local" {
+			if how == "alias-local" || how == "alias-chain" {
 				af := b.NewFile(u, "aliases.go")
 				for _, t := range bt.Types {
-					if used[t] {
+					if used[t] && how == "alias-local" {
 						af.Decls = append(af.Decls, b.tstmt("type "+name(t)+" = %T", free(refT(t, SubOther), TONL)))
+					}
+					if used[t] && how == "alias-chain" {
+						// an alias of an alias declared in a third package: B = al.A = d.T
+						ru := free(refT(t, SubOther), TONL)
+						n := b.tstmt("type B"+name(t)+" = %T", ru)
+						n.Pre[0].Feature = "alias-spelling"
+						chained[n.Pre[0]] = true
+						af.Decls = append(af.Decls, n)
 					}
 				}
 				if len(af.Decls) == 0 {
@@ -320,11 +336,17 @@ func Respell(bt *Built, how string, r *base.Rand) (RenderOpts, int) {
 			}
 		}
 		return RenderOpts{Spell: func(l *Line, u *Use) string {
+			if chained[l] {
+				return "«m/al»." + name(u.T)
+			}
 			if !spelled[l] {
 				return ""
 			}
-			if how == "alias-local" {
+			switch how {
+			case "alias-local":
 				return name(u.T)
+			case "alias-chain":
+				return "B" + name(u.T)
 			}
 			return "«m/al»." + name(u.T)
 		}}, n
